@@ -25,6 +25,7 @@ RULE = (
     "can_assign, is_assignable, unite_values, substitute_typevars, str and simplify return. Non-trivial = mutated "
     "program that imports and yields at least one diagnostic (distinct by source); value pairs with a "
     "non-leaf operand."
+    ' Mutation operators include `expensive-arith` (literal integer arithmetic with results above 10^6 bits, in plain function bodies only).'
 )
 ASSUMPTIONS = [
     "termination is observed per module with a 60 s alarm (typical check: milliseconds); a module exceeding it is reported as no-termination with the pyanalyze frame it was in",
